@@ -5,6 +5,10 @@ appended to the line:
 
     <I segments> | wire … | hs …      ->      <I segments> | wire … | hs … || <M segments>
 
+and, when the harness reports the server-side credential callbacks it observed (` | cred <events>`, harness/dtls.c), the
+events WITHOUT their results are replayed together with the line's configuration words through M's credential selection
+and S (driver op `pskreplay`); the answer is appended as  ` || M <events with M's results> | S <events with S's results>`.
+
 usage: dtls_pipe.py <h_dtls> <drv>     (exit status / stderr of the harness are passed through so that the runner's
 crash attribution keeps working)"""
 import subprocess, sys
@@ -15,17 +19,24 @@ r = subprocess.run([h], input=data, stdout=subprocess.PIPE, stderr=subprocess.PI
 out = r.stdout.decode(errors="replace")
 lines = out.split("\n")
 tail = lines.pop()          # text after the last newline: empty, or the partial line of a crash (dropped)
+inputs = data.decode(errors="replace").split("\n")
 jobs, where = [], []
 for i, l in enumerate(lines):
     if " | wire " in l:
-        segs = l.split(" | ")[0].split(" ; ")
+        parts = l.split(" | ")
+        segs = parts[0].split(" ; ")
         jobs.append("tlsgate " + " ".join(s.split(">")[0] for s in segs))
         where.append(i)
+        cred = [p for p in parts[1:] if p.startswith("cred ")]
+        if cred and i < len(inputs):
+            evs = [e if e == "ses" else ":".join(e.split(":")[:2]) for e in cred[0].split()[1:] if e != "-"]
+            jobs.append("pskreplay " + " ".join(inputs[i].split()[1:]) + " :: " + " ".join(evs))
+            where.append(i)
 if jobs:
     d = subprocess.run([drv], input=("\n".join(jobs) + "\n").encode(), stdout=subprocess.PIPE, stderr=subprocess.PIPE)
     res = d.stdout.decode(errors="replace").split("\n")
     for i, v in zip(where, res + ["M model-died"] * len(where)):
-        v = v[2:] if v.startswith("M ") else v
+        v = v[2:] if v.startswith("M ") and " | S " not in v else v
         lines[i] = "%s || %s" % (lines[i], v)
 sys.stdout.write("".join(l + "\n" for l in lines))
 sys.stdout.flush()
